@@ -167,6 +167,7 @@ func checkC15(p *Program, r *Report) {
 	c15Positions(p, r, sm)
 	c15Lists(p, r)
 	c15ActionResults(p, r)
+	c15SourceAsGiven(p, r)
 	c15Identifiers(p, r, sm)
 }
 
@@ -1485,4 +1486,35 @@ func c15ActionResults(p *Program, r *Report) {
 			"the rule's action can leave its result unset while $1 comes from an empty rule that sets nothing: the result is whatever an earlier reduction left in that slot of the value stack, so the tree of a text depends on what was parsed before it (an empty block inherits the statements of a previous block)")
 	}
 	r.Floor("C15.R13", n, 150)
+}
+
+// c15SourceAsGiven (R14): ParseSrc scans exactly the text it was given: the scanner's character buffer is the conversion of the
+// parameter itself. Positions are counted on that buffer, so any text added (a final newline, a BOM stripped, a prefix) moves
+// or invents positions: an error at the end of the input is then reported on a line the input does not have.
+func c15SourceAsGiven(p *Program, r *Report) {
+	sp := p.SSAPkg("parser")
+	if sp == nil {
+		return
+	}
+	fn, _ := sp.Members["ParseSrc"].(*ssa.Function)
+	if fn == nil || len(fn.Params) != 1 {
+		r.Undecided("C15.R14", "ParseSrc|source as given", "parser", "ParseSrc(src string) not found")
+		return
+	}
+	n := 0
+	for _, b := range fn.Blocks {
+		for _, in := range b.Instrs {
+			cv, ok := in.(*ssa.Convert)
+			if !ok {
+				continue
+			}
+			if _, isSlice := cv.Type().Underlying().(*types.Slice); !isSlice {
+				continue
+			}
+			n++
+			r.Check(cv.X == ssa.Value(fn.Params[0]), "C15.R14", fmt.Sprintf("ParseSrc|scanned text #%d is the parameter itself", n), p.Pos(cv.Pos()), "[]rune of the parameter, unmodified",
+				"the text handed to the scanner is not the parameter itself (something was added, removed or replaced first): positions are counted on the altered text, so an error can be reported on a line or column the caller's input does not have")
+		}
+	}
+	r.Floor("C15.R14", n, 1)
 }
